@@ -99,8 +99,13 @@ def step(ins, regs):
     if op == 'reshape':
         return algopy.reshape(regs[ins[1]], ins[2])
     if op == 'zeros':
+        if type(regs[ins[2]]) is np.ndarray:
+            # plain operands (the reference path of C05 and others): NumPy itself, not algopy's dispatch for plain prototypes
+            return np.zeros(ins[1], dtype=regs[ins[2]].dtype)
         return algopy.zeros(ins[1], dtype=regs[ins[2]])
     if op == 'ones':
+        if type(regs[ins[2]]) is np.ndarray:
+            return np.ones(ins[1], dtype=regs[ins[2]].dtype)
         return algopy.ones(ins[1], dtype=regs[ins[2]])
     if op == 'set':
         regs[ins[1]][ins[2]] = regs[ins[3]]
